@@ -342,7 +342,9 @@ def semi_singleton_metaclass(hashfunc: Callable | None = None) -> type:
         _SemiSingleton__semisingleton_hashfunc = hashfunc
 
         def __call__(cls, *args, **kwargs):
-            key = hashfunc(args, kwargs)
+            # instances are kept per class: classes sharing this metaclass
+            # (including subclasses) must not see each other's instances
+            key = (cls, hashfunc(args, kwargs))
             if key not in cls._SemiSingleton__semisingleton_instance_map:
                 cls._SemiSingleton__semisingleton_instance_map[key] = super(
                     _SemiSingleton, cls
@@ -400,7 +402,7 @@ def add_mapping(obj: object, *args, **kwargs):
     hashid = hashfunc(args, kwargs)
 
     # store the hashed identifier in the metaclass map of hashes to instances
-    cls._SemiSingleton__semisingleton_instance_map[hashid] = obj  # type: ignore
+    cls._SemiSingleton__semisingleton_instance_map[(type(obj), hashid)] = obj  # type: ignore
 
 
 def drop_semi_singleton_mapping(cls: type, *args, **kwargs):
@@ -451,7 +453,7 @@ def drop_semi_singleton_mapping(cls: type, *args, **kwargs):
     hashfunc = mcls._SemiSingleton__semisingleton_hashfunc  # type: ignore
     hashid = hashfunc(args, kwargs)
 
-    del mcls._SemiSingleton__semisingleton_instance_map[hashid]
+    del mcls._SemiSingleton__semisingleton_instance_map[(cls, hashid)]
 
 
 def check_semi_singleton_entry_exists(cls: type, *args, **kwargs) -> object:
@@ -496,8 +498,8 @@ def check_semi_singleton_entry_exists(cls: type, *args, **kwargs) -> object:
     hashfunc = mcls._SemiSingleton__semisingleton_hashfunc  # type: ignore
     hashid = hashfunc(args, kwargs)
 
-    if hashid in mcls._SemiSingleton__semisingleton_instance_map:  # type: ignore
-        return mcls._SemiSingleton__semisingleton_instance_map[hashid]  # type: ignore
+    if (cls, hashid) in mcls._SemiSingleton__semisingleton_instance_map:  # type: ignore
+        return mcls._SemiSingleton__semisingleton_instance_map[(cls, hashid)]  # type: ignore
 
     return None
 
@@ -532,7 +534,10 @@ def get_all_semi_singleton_instances(cls: type) -> Generator[object]:
     :param cls: Data type to check singleton instances for.
     :return: Generator expression yielding semi-singleton instances.
     """
-    yield from type(cls)._SemiSingleton__semisingleton_instance_map.values()  # type: ignore
+    imap = type(cls)._SemiSingleton__semisingleton_instance_map  # type: ignore
+    for key, inst in list(imap.items()):
+        if key[0] is cls:
+            yield inst
 
 
 def clear_semi_singleton(cls: type) -> None:
@@ -567,4 +572,6 @@ def clear_semi_singleton(cls: type) -> None:
 
     :param cls: Class to clear semisingleton states from.
     """
-    type(cls)._SemiSingleton__semisingleton_instance_map = {}  # type: ignore
+    imap = type(cls)._SemiSingleton__semisingleton_instance_map  # type: ignore
+    for key in [k for k in imap if k[0] is cls]:
+        del imap[key]
